@@ -274,6 +274,42 @@ func c15ContainsLaw(c *Case) {
 			}
 		}
 	}
+	// sort: long arrays (library sorts switch algorithm with length) with equal keys of different kinds
+	for n := 0; n < 40; n++ {
+		rng := caseRng(c.Seed, "C15-sort", n)
+		var items []Expr
+		ln := 13 + rng.IntN(40)
+		for i := 0; i < ln; i++ {
+			switch rng.IntN(9) {
+			case 0:
+				items = append(items, N(strconv.Itoa(rng.IntN(4))))
+			case 1:
+				items = append(items, S(strconv.Itoa(rng.IntN(4))))
+			case 2:
+				items = append(items, &BoolLit{V: rng.IntN(2) == 0})
+			case 3:
+				items = append(items, &NullLit{})
+			case 4:
+				items = append(items, Arr(N(strconv.Itoa(i))))
+			case 5:
+				items = append(items, obj1("i", N(strconv.Itoa(i))))
+			case 6:
+				items = append(items, S(""))
+			default:
+				items = append(items, S([]string{"b", "a", "B", "10", "9"}[rng.IntN(5)]))
+			}
+		}
+		if n%4 == 0 { // all numbers: numeric order
+			items = nil
+			for i := 0; i < ln; i++ {
+				items = append(items, N([]string{"3", "1", "2", "10", "2.0", "0.5"}[rng.IntN(6)]))
+			}
+		}
+		p := &Program{Items: []any{&Rule{Kind: "BEGIN", Body: Blk(asg(V("a"), Arr(items...)), Pr(jsonOf(Meth(V("a"), "sort"))), Pr(jsonOf(V("a")), Meth(V("a"), "length")))}}}
+		c.NonTrivial(fmt.Sprintf("longsort:%d", n))
+		c.Count("long_sort_arrays")
+		m2(c, &M2Case{Prog: p, Desc: "sort of a long array with equal keys of different kinds"})
+	}
 	// the same textual call site re-entered through recursion while its arguments are evaluated
 	for _, prog := range []string{
 		"function nest(i) { if (i == 3) { return 'leaf' } a[i].push(nest(i + 1)); return i } BEGIN { a = [[], [], []]; nest(0); print json(a) }",
